@@ -21,8 +21,8 @@ type refOpts struct {
 	Adobe    bool   `json:"adobe"`
 	COM      bool   `json:"com"`
 	IDs      [3]int `json:"component_ids"`
-	Tq       [2]int `json:"tq"` // quantisation table ids for luma / chroma
-	Th       [2]int `json:"th"` // Huffman table ids for luma / chroma (0..1 in baseline)
+	Tq       [2]int `json:"tq"`              // quantisation table ids for luma / chroma
+	Th       [2]int `json:"th"`              // Huffman table ids for luma / chroma (0..1 in baseline)
 	Merge    bool   `json:"merged_segments"` // one DQT and one DHT segment carrying all tables
 }
 
